@@ -2,12 +2,14 @@
 
 
 # ---------- job construction (contig-per-process mode)
-def check_contig_jobs(block, contigs):
-    """block(get_contigs_with_reads, input_bam_path) -> job_gen. contigs: list of (name, length) as idxstats yields."""
+def check_contig_jobs(block, contigs, restrict=None):
+    """block(get_contigs_with_reads, input_bam_path, contig_whitelist, contig_restricted) -> job_gen.
+    contigs: list of (name, length) as idxstats yields. restrict: name given with -contig (None: everything, incl. the unmapped bin)."""
     def gcwr(path, with_length=False):
         for c, l in contigs:
             yield (c, l) if with_length else c
-    job_gen = block(gcwr, 'in.bam')
+    whitelist = [restrict] if restrict is not None else [c for c, l in contigs]
+    job_gen = block(gcwr, 'in.bam', whitelist, restrict is not None)
     seen = {}
     for job in job_gen:
         if len(job) == 0:
@@ -16,7 +18,11 @@ def check_contig_jobs(block, contigs):
             if len(task) != 5 or task[1] is not None or task[2] is not None or task[3] is not None or task[4] is not None:
                 return 'task_shape'
             seen[task[0]] = seen.get(task[0], 0) + 1
-    want = set(c for c, l in contigs) | {'*'}
+    if restrict is None:
+        want = set(c for c, l in contigs) | {'*'}
+    else:
+        # exactly what the serial pass does with -contig: that contig only, no unmapped bin
+        want = set(c for c, l in contigs if c == restrict and c != '*')
     for c in want:
         n = seen.get(c, 0)
         if n == 0:
@@ -25,7 +31,7 @@ def check_contig_jobs(block, contigs):
             return 'contig_twice' if c != '*' else 'unmapped_twice'
     for c in seen:
         if c not in want:
-            return 'foreign_contig'
+            return 'foreign_contig' if restrict is None else 'contig_outside_selection'
     return None
 
 
